@@ -291,6 +291,10 @@ func (g *scriptGen) seq(depth int) *rt.Seq {
 	default:
 		n = 4
 	}
+	wide := depth == 1 && r.Intn(100) < 5
+	if wide {
+		n = 9 + r.Intn(4) // more distinct terms than fit one byte of the per-span bit set
+	}
 	q := &rt.Seq{}
 	homog := ""
 	if r.Intn(100) < 60 {
@@ -298,7 +302,7 @@ func (g *scriptGen) seq(depth int) *rt.Seq {
 	}
 	for i := 0; i < n; i++ {
 		it := &rt.Item{}
-		if depth < 3 && r.Intn(100) < 22 {
+		if !wide && depth < 3 && r.Intn(100) < 22 {
 			it.Sub = g.seq(depth + 1)
 		} else {
 			it.Term = g.term()
